@@ -193,6 +193,8 @@ class UnknownOperand(Operand):
             self.value = Value.create_from_str(operand_string, instruction)
         except ValueTypeError:
             raise OperandTypeError("[{}] unknown operand type".format(operand_string))
+        if self.value.is_leftright():
+            raise OperandTypeError("[{}] unknown operand type".format(operand_string))
 
     def translate(self):
         return CodePackage(additional=self.value)
@@ -419,7 +421,7 @@ class ImmediateOperand(Operand):
             self.value = Value.create_from_str(self.operand_string, instruction)
         except ValueTypeError:
             raise OperandTypeError("[{}] is not an immediate value".format(operand_string))
-        if not self.value.is_immediate():
+        if not self.value.is_immediate() or self.value.is_leftright():
             raise OperandTypeError("[{}] is not an immediate value".format(operand_string))
 
     def translate(self):
